@@ -215,6 +215,8 @@ static void build_family(void)
 				strcat(buf, "(a)");
 			add_family("%s", buf);
 			add_family("%s\\>", buf);
+			add_family("z%s*b", buf);		/* the last group starred */
+			add_family("%s(|a)*b", buf);
 		}
 	}
 	/* long literal runs and nested groups */
